@@ -435,7 +435,13 @@ pub fn minimise(check: &dyn Check, case: &Case, class: &str, timeout: Duration, 
         }
     }
     let mut progress = true;
-    while progress && Instant::now() < deadline {
+    // schedule chunks get finer whenever a whole pass removes nothing (delta debugging)
+    let mut level: u32 = 0;
+    let mut finest_done = false;
+    while (progress || !finest_done) && Instant::now() < deadline {
+        if !progress {
+            level += 1;
+        }
         progress = false;
         let mut cands: Vec<Case> = vec![];
         // drop the whole schedule / all faults first (is the interleaving needed at all?)
@@ -483,9 +489,15 @@ pub fn minimise(check: &dyn Check, case: &Case, class: &str, timeout: Duration, 
             cands.push(c);
         }
         cands.extend(check.shrink(&best));
+        if best.recorded.is_none() {
+            finest_done = true;
+        }
         // schedule: drop halves, then single decisions; faults: drop one at a time
         if let Some(rec) = &best.recorded {
             let n = rec.sched.len();
+            if n <= 1 {
+                finest_done = true;
+            }
             if n > 1 {
                 let mut c = best.clone();
                 c.recorded.as_mut().unwrap().sched.truncate(n / 2);
@@ -493,9 +505,12 @@ pub fn minimise(check: &dyn Check, case: &Case, class: &str, timeout: Duration, 
                 let mut c = best.clone();
                 c.recorded.as_mut().unwrap().sched.drain(0..n / 2);
                 cands.push(c);
-                let chunk = (n / 8).max(1);
+                let chunk = (n / (8usize << level.min(20))).max(1);
+                if chunk == 1 {
+                    finest_done = true;
+                }
                 let mut at = 0;
-                while at < n && cands.len() < 200 {
+                while at < n && cands.len() < 400 {
                     let mut c = best.clone();
                     let end = (at + chunk).min(n);
                     c.recorded.as_mut().unwrap().sched.drain(at..end);
